@@ -16,7 +16,9 @@ Clause(e) ==
          THEN (IF e.ok /\ Len(e.out) >= 1 /\ e.out[1] = e.in.bass /\ LawChord(Meaning(e.in.sh), e.in.root, Tail(e.out))
                THEN "ok" ELSE "slash-chord")
          ELSE (IF Rejected(e) THEN "ok" ELSE "reject-bad-root")
-    [] e.op = "poly" -> IF e.ok /\ e.out.xy = PolyJoin(e.out.y, e.out.x) THEN "ok" ELSE "polychord"
+    [] e.op = "poly" -> IF ~(e.ok /\ e.out.xy = PolyJoin(e.out.y, e.out.x)) THEN "polychord"
+                        \* 'X|Y|X': the part after the FIRST bar is itself the polychord 'Y|X' (X's notes, then Y's), on which X is stacked
+                        ELSE IF e.out.xyx # PolyJoin(PolyJoin(e.out.x, e.out.y), e.out.x) THEN "polychord-nested" ELSE "ok"
     [] e.op = "nc" -> IF e.ok /\ e.out = <<>> THEN "ok" ELSE "no-chord"
     [] e.op = "list" ->
          IF e.ok /\ Len(e.out) = Len(e.in.items)
